@@ -18,8 +18,9 @@ from props import PROPS, ALL_CFGS, owns
 
 VERIF = runner.VERIF
 COQ = os.path.join(VERIF, 'coq')
-EVID = os.path.join(VERIF, 'evidence')
-REPLAYS = os.path.join(VERIF, 'replays')
+# seeded-change trials set these so that the committed evidence (which must describe /repo itself) is never overwritten by them
+EVID = os.environ.get('VERIF_EVIDENCE_DIR') or os.path.join(VERIF, 'evidence')
+REPLAYS = os.environ.get('VERIF_REPLAY_DIR') or os.path.join(VERIF, 'replays')
 
 FORBIDDEN = re.compile(r'\b(Admitted|admit|Axiom|Axioms|Parameter|Parameters|Conjecture|Admit Obligations|Unset Guard Checking|'
                        r'Unset Positivity Checking|Unset Universe Checking|bypass_check|type-in-type|impredicative-set)\b')
